@@ -18,3 +18,18 @@ package args
 //@   site return assert !cu.features.EnableNestedStruct || cu.useTemplate == "slim" || cu.useTemplate == "raw_struct" ==> len(opts) == len(old(opts)) && forall k int :: 0 <= k && k < len(opts) ==> opts[k] == old(opts)[k]
 //@   loop 1 invariant cu != nil && len(opts) == len($xs) && (found <==> exists k int :: 0 <= k && k < $i && opts[k].Name == "template")
 //@   loop 1 invariant forall k int :: 0 <= k && k < $i && opts[k].Name == "template" ==> opts[k].Desc == "slim"
+
+// Command-line layer as seen by the driver (sdk.InvokeThriftgo): assumed contracts, no claims beyond "returns".
+//@ func (a *Arguments) Parse(argv []string) error
+//@   trusted
+//@   modifies *a
+//@ func (a *Arguments) MakeLogFunc() backend.LogFunc
+//@   trusted
+//@ func (a *Arguments) UsedPlugins() (descs []*plugin.Desc, err error)
+//@   trusted
+//@   ensures forall i int :: 0 <= i && i < len(descs) ==> descs[i] != nil
+//@ func (a *Arguments) Targets() (specs []*generator.LangSpec, err error)
+//@   trusted
+//@   ensures forall i int :: 0 <= i && i < len(specs) ==> specs[i] != nil
+//@ func (a *Arguments) Output(lang string) string
+//@   trusted
